@@ -235,7 +235,7 @@ def check_handwritten_serializers(ctx, f):
             m = re.match(r"^%s↓Some\.0$" % PLAIN, val)
             if m:
                 src = val[:-len("↓Some.0")]
-                ok = guards == ["discr(%s) -> 1" % src]
+                ok = guards == ["discr(%s) in {1}" % src]
                 what = "is written exactly when %s is Some, with that value" % src
             else:
                 ok = not guards and re.search(r"self\.\w+", val) is not None and "filter" not in val
